@@ -57,7 +57,15 @@ def _canon_impl_paths(text):
             pos = m.end()
             continue
         inner = text[i + len("<impl "):j]
-        if " for " in inner or inner.startswith(("&", "(", "[", "dyn ")):
+        if " for " in inner and not inner.startswith(("&", "(", "[", "dyn ")):
+            # `module::<impl Trait<..> for Type<..>>::method` -> `<Type<..> as Trait<..>>::method` (what rustc prints when
+            # the impl sits in the type's own module)
+            tr, ty_ = inner.split(" for ", 1)
+            out.append(text[pos:m.start()])
+            out.append("<%s as %s>" % (ty_, tr))
+            pos = j + 1
+            continue
+        if inner.startswith(("&", "(", "[", "dyn ")):
             out.append(text[pos:m.end()])
             pos = m.end()
             continue
